@@ -13,6 +13,17 @@
 #include <dune/common/bigunsignedint.hh>
 #include <dune/common/hash.hh>
 #include <cstring>
+#include <csetjmp>
+#include <csignal>
+#include <sys/time.h>
+
+// watchdog for operations the property requires to terminate ("never looping"): a compound division whose
+// divisor aliases the dividend must return at once; if it does not, the case is reported as HANG and the
+// driver goes on (siglongjmp out of the pure computation loop).
+static sigjmp_buf hang_env;
+static void on_alarm(int) { siglongjmp(hang_env, 1); }
+static void arm(long usec) { struct itimerval it = {{0, 0}, {usec / 1000000, usec % 1000000}}; setitimer(ITIMER_REAL, &it, nullptr); }
+static void disarm() { struct itimerval it = {{0, 0}, {0, 0}}; setitimer(ITIMER_REAL, &it, nullptr); }
 
 // Values are written/read through the object representation (an array of n uint16_t digits,
 // little endian -- the same representation MPITraits<bigunsignedint<k>> communicates), so that
@@ -64,14 +75,74 @@ static std::string run(const std::vector<std::string>& t)
   const std::string& op = t[1];
   try {
     if (op == "assign") { std::uintmax_t x = std::stoull(t[2], nullptr, 16); return to_hex(B(x)); }
-    if (op == "signed") { long long x = std::stoll(t[2]); if (t.size() > 3 && t[3] == "int") return to_hex(B(int(x))); return to_hex(B(x)); }
+    if (op == "signed") {
+      long long x = std::stoll(t[2]);
+      if (t.size() > 3 && t[3] == "int") return to_hex(B(int(x)));
+      if (t.size() > 3 && t[3] == "short") return to_hex(B(short(x)));
+      if (t.size() > 3 && t[3] == "schar") return to_hex(B((signed char)(x)));
+      if (t.size() > 3 && t[3] == "long") return to_hex(B(long(x)));
+      if (t.size() > 3 && t[3] == "cast") return to_hex(static_cast<B>(x));
+      return to_hex(B(x));
+    }
     if (op == "default") { B d; return to_hex(d); }
     if (op == "limits") {
       using L = std::numeric_limits<B>;
       std::ostringstream os;
-      os << L::is_specialized << L::is_signed << L::is_integer << L::is_exact << L::is_bounded << L::is_modulo << " " << L::radix << " "
-         << to_hex(L::epsilon()) << to_hex(L::round_error()) << to_hex(L::infinity()) << to_hex(L::quiet_NaN()) << to_hex(L::denorm_min());
+      os << L::is_specialized << L::is_signed << L::is_integer << L::is_exact << L::has_infinity << L::has_quiet_NaN << L::has_signaling_NaN
+         << L::has_denorm_loss << L::is_iec559 << L::is_bounded << L::is_modulo << L::traps << L::tinyness_before << " "
+         << L::radix << "," << L::digits << "," << L::min_exponent << "," << L::min_exponent10 << "," << L::max_exponent << "," << L::max_exponent10
+         << "," << (int(L::has_denorm) + 1) << "," << (int(L::round_style) + 1) << " "
+         << to_hex(L::min()) << "," << to_hex(L::max()) << "," << to_hex(L::epsilon()) << "," << to_hex(L::round_error()) << "," << to_hex(L::infinity())
+         << "," << to_hex(L::quiet_NaN()) << "," << to_hex(L::signaling_NaN()) << "," << to_hex(L::denorm_min());
       return os.str();
+    }
+    if (op == "consts") {
+      // the compiled values of the constants the translator reads textually from the source, and the platform constants
+      std::ostringstream os;
+      os << B::bits << " " << B::n << " " << B::hexdigits << " " << B::bitmask << " " << (unsigned long)(std::uint32_t) B::compbitmask << " " << B::overflowmask
+         << " " << std::numeric_limits<std::uintmax_t>::digits << " " << std::numeric_limits<double>::digits << " " << 8 * sizeof(std::size_t)
+         << " " << std::numeric_limits<std::uint_least32_t>::digits;
+      return os.str();
+    }
+    if (op == "mixsl" || op == "mixsr") {
+      // mixed operations with a SIGNED built-in on either side: t[2] op, t[3] big, t[4] decimal, t[6] type (ll default, int)
+      B a = from_hex<k>(t[3]); long long y = std::stoll(t[4]);
+      const std::string& o = t[2];
+      bool l = (op == "mixsl");
+      bool asint = t.size() > 6 && t[6] == "int";
+      auto go = [&](auto yy) -> std::string {
+        if (o == "add") return to_hex(l ? a + yy : yy + a);
+        if (o == "sub") return to_hex(l ? a - yy : yy - a);
+        if (o == "mul") return to_hex(l ? a * yy : yy * a);
+        if (o == "div") return to_hex(l ? a / yy : yy / a);
+        if (o == "mod") return to_hex(l ? a % yy : yy % a);
+        return "UNKNOWN-OP";
+      };
+      return asint ? go(int(y)) : go(y);
+    }
+    if (op == "self") {
+      // compound operators with both operands the same object
+      B x = from_hex<k>(t[3]);
+      const std::string& o = t[2];
+      if (sigsetjmp(hang_env, 1)) return "HANG (operator did not return within 0.25 s)";
+      std::signal(SIGALRM, on_alarm);
+      arm(250000);
+      try {
+        if (o == "add") x += x; else if (o == "sub") x -= x; else if (o == "mul") x *= x;
+        else if (o == "div") x /= x; else if (o == "mod") x %= x;
+        else if (o == "and") x &= x; else if (o == "or") x |= x; else if (o == "xor") x ^= x;
+        else { disarm(); return "UNKNOWN-OP"; }
+      } catch (...) { disarm(); throw; }
+      disarm();
+      return to_hex(x);
+    }
+    if (op == "hash") {
+      B a = from_hex<k>(t[2]);
+      std::size_t h1 = hash_value(a), h2 = Dune::hash<B>()(a), h3 = std::hash<B>()(a);
+      char buf[40]; std::snprintf(buf, sizeof buf, "%llx", (unsigned long long) h1);
+      std::string r = buf;
+      if (h2 != h1 || h3 != h1) r += " (Dune::hash / std::hash differ from hash_value)";
+      return r;
     }
     if (op == "mixl" || op == "mixr") {
       // mixed operations with a built-in unsigned on either side: t[2] in {add,sub,mul,div,mod}, t[3] big, t[4] u64 hex
@@ -83,9 +154,16 @@ static std::string run(const std::vector<std::string>& t)
       if (o == "mul") return to_hex(l ? a * u : u * a);
       if (o == "div") return to_hex(l ? a / u : u / a);
       if (o == "mod") return to_hex(l ? a % u : u % a);
+      if (o == "and" && l) return to_hex(a & u);
+      if (o == "or" && l) return to_hex(a | u);
+      if (o == "xor" && l) return to_hex(a ^ u);
       return "UNKNOWN-OP";
     }
-    if (op == "stream") { B a = from_hex<k>(t[2]); std::ostringstream os; os << a << "|" << std::dec << 42; return os.str(); }
+    if (op == "stream") { B a = from_hex<k>(t[2]); std::ostringstream os; os << std::hex << a << "|" << 255 << "|" << a; return os.str(); }
+    if (op == "streamsb") {
+      // a stream with showbase set (and uppercase, which applies to the letters): the digits must still read back as the value
+      B a = from_hex<k>(t[2]); std::ostringstream os; os << std::showbase << a << "|" << 255 << "|" << std::hex << 255; return os.str();
+    }
     if (op == "max") return to_hex(std::numeric_limits<B>::max());
     if (op == "min") return to_hex(std::numeric_limits<B>::min());
     if (op == "digits") return std::to_string(std::numeric_limits<B>::digits);
